@@ -257,6 +257,7 @@ pub fn s1(property: &str, scenario: &str, seed: u64, o: &S1Opts) -> Plan {
         horizon_us: horizon,
         mode: Mode::Net,
         random_faults_until_us: None,
+        exempt_kinds: 0,
         oracle: OracleCfg::default(),
     }
 }
@@ -354,6 +355,7 @@ pub fn synctest(property: &str, seed: u64, faulty: bool, invalid: bool) -> Plan 
         horizon_us: 0,
         mode: Mode::SyncTest { check_distance: cd, frames, expect_reject: invalid },
         random_faults_until_us: None,
+        exempt_kinds: 0,
         oracle: OracleCfg::default(),
     }
 }
@@ -384,6 +386,7 @@ pub fn generate(property: &str, tier: &str, seed: u64, index: u64) -> Plan {
         "C06" => c06(property, seed),
         "C07" => c07(property, seed),
         "C08" => c08(property, tier, seed, index),
+        "C09" => c09(property, seed, index),
         "C12" => c12(property, seed, index),
         "C13" => match index % 8 {
             0 => synctest(property, seed, false, true),
@@ -490,6 +493,7 @@ fn c05_base_plan(property: &str, seed: u64, b: (u8, usize, usize, bool)) -> Plan
         horizon_us: deadline,
         mode: Mode::Net,
         random_faults_until_us: Some(0),
+        exempt_kinds: 0,
         oracle: OracleCfg { liveness: Some(Liveness { heal_us: heal, deadline_us: deadline, min_frames: 5, require_running: true, nodes: Vec::new(), spectator_lag: true }), no_disconnect_events: true, ..Default::default() },
     }
 }
@@ -814,6 +818,7 @@ fn two_peer_base(property: &str, scenario: &str, seed: u64, c: &Ch, allow_specta
         horizon_us: ms(5000),
         mode: Mode::Net,
         random_faults_until_us: None,
+        exempt_kinds: 0,
         oracle: OracleCfg::default(),
     }
 }
@@ -1145,4 +1150,29 @@ pub fn c08(property: &str, tier: &str, seed: u64, index: u64) -> Plan {
         return c08_shell(property, "c08-payload-mutations", seed, Mode::DecodeMutations { count: 5000 });
     }
     c08_live(property, seed, index)
+}
+
+
+// ------------------------------------------------------------------ C09
+
+pub fn c09(property: &str, seed: u64, index: u64) -> Plan {
+    let c = Ch::new(seed, "c09");
+    if index % 2 == 0 {
+        // false-alarm half: deterministic games, detection on, everything else as in C01's space
+        let mut p = s1(property, "c09-no-false-alarm", seed, &S1Opts { desync: true, ..Default::default() });
+        p.oracle.no_desync_events = true;
+        return p;
+    }
+    // detection half: one peer's game really diverges from frame F on
+    let mut p = s1(property, "c09-divergence", seed, &S1Opts { desync: true, max_peers: 3, frames_lo: 300, frames_hi: 900, long_run_pct: 0, ..Default::default() });
+    p.cfg.sparse = false;
+    let peers = p.peers();
+    let x = peers[c.range(&[1], 0, peers.len() as u64 - 1) as usize];
+    let per = 1_000_000 / p.cfg.fps as u64;
+    let total_frames = p.horizon_us / per;
+    let f = if c.chance(&[2], 200_000) { c.range(&[3], 0, p.cfg.desync_interval as u64) } else { c.range(&[4], 0, total_frames.saturating_sub(200).max(1)) };
+    p.perturb.push(Perturb { node: x, frame: f as i32, mode: PerturbMode::Consistent });
+    p.exempt_kinds = 1 << K_CHECKSUM;
+    p.horizon_us += ms(3000);
+    p
 }
